@@ -5,4 +5,4 @@ CONSTANTS
   HI = 1000
   EMIT = FALSE
   Wrong = {}
-INVARIANTS TypeOK BaseDerivable BaseZeroIsEither MapConsistent AcceptDerivable MutationApplied UnchangedAccepted TruncationRejected TruncationInsideVariablePartRejected OverrunRejected DataLengthNeverAccepted HugeNeverAccepted SpliceDisagrees NameNulChecked VersionChecked EncodingChecked NonFlatNeverAccepted
+INVARIANTS TypeOK BaseDerivable BaseZeroIsEither MapConsistent AcceptDerivable MutationApplied UnchangedAccepted TruncationRejected TruncationInsideVariablePartRejected OverrunRejected DataLengthNeverAccepted HugeNeverAccepted SpliceDisagrees NameNulChecked TerminatorChecked VersionChecked EncodingChecked NonFlatNeverAccepted
